@@ -670,6 +670,13 @@ func (g *graph) compile(ctx context.Context, opt *graphCompileOptions) (*composa
 		}
 	}
 
+	// every compilation gets its own pre-node handlers: the builder's map must not be
+	// modified here, runners of earlier compilations share nothing with later ones.
+	handlerPreNode := make(map[string][]handlerPair, len(g.handlerPreNode)+len(g.fieldMappingRecords))
+	for key, handlers := range g.handlerPreNode {
+		handlerPreNode[key] = append([]handlerPair(nil), handlers...)
+	}
+
 	for key := range g.fieldMappingRecords {
 		// not allowed to map multiple fields to the same field
 		toMap := make(map[string]bool)
@@ -681,7 +688,7 @@ func (g *graph) compile(ctx context.Context, opt *graphCompileOptions) (*composa
 		}
 
 		// add map to input converter
-		g.handlerPreNode[key] = append(g.handlerPreNode[key], g.getNodeGenericHelper(key).inputFieldMappingConverter)
+		handlerPreNode[key] = append(handlerPreNode[key], g.getNodeGenericHelper(key).inputFieldMappingConverter)
 	}
 
 	key2SubGraphs := g.beforeChildGraphsCompile(opt)
@@ -777,7 +784,7 @@ func (g *graph) compile(ctx context.Context, opt *graphCompileOptions) (*composa
 		genericHelper: g.genericHelper,
 
 		preBranchHandlerManager: &preBranchHandlerManager{h: g.handlerPreBranch},
-		preNodeHandlerManager:   &preNodeHandlerManager{h: g.handlerPreNode},
+		preNodeHandlerManager:   &preNodeHandlerManager{h: handlerPreNode},
 		edgeHandlerManager:      &edgeHandlerManager{h: g.handlerOnEdges},
 	}
 
